@@ -400,7 +400,7 @@ func (m *Machine) packageScan() *FuncReport {
 												okw = true
 											}
 										}
-										rep.Obligs = append(rep.Obligs, m.pkgObl("field-writers", fk+" in "+key, []string{"C17"}, okw, site, "only "+strings.Join(allowed, ", ")+" may store to "+fk))
+										rep.Obligs = append(rep.Obligs, m.pkgObl("field-writers", fk+" in "+key, pc.FieldWriterProps[fk], okw, site, "only "+strings.Join(allowed, ", ")+" may store to "+fk))
 									}
 								}
 							}
